@@ -2,15 +2,45 @@
 from harness.suites import compat
 
 MANIFEST = dict(
-    text='(in progress)',
-    note='(in progress)',
-    technique='Lean 4 proof + differential correspondence on spec pairs + direct oracle',
+    text='Lean 4 theorems over the model of the Python JSON decoder (Model/Rt) and a specification-level model of '
+         'docs/evolve_spec.rst (Model/Rt/Compat.lean: a one-to-one correspondence rho between the class references of an older '
+         'spec A and a newer spec B; subB = every related pair of classes differs only by listed compatible changes - added '
+         'optional / defaulted fields, tags added to open unions, Void tags given a type, subtypes added under catch-all roots, '
+         'renamings; aliases are invisible in validator trees). Proved for ALL environments, types, nestings and documents: '
+         '(forward_compat_msg) every document B\'s decoder accepts - in particular everything B\'s encoder writes - is accepted by '
+         'A\'s lenient decoder as the A-view of the decoded value (unknown fields dropped, unknown tags read as the catch-all, '
+         'unknown subtypes read as the base struct, payloads of tags that are Void in A ignored); (strict_accepts_known_partial) '
+         'A\'s strict decoder accepts it too when it contains nothing A does not know, i.e. strict mode refuses only messages '
+         'with unknown content; (backward_compat_msg) every document in A\'s encoder form that A\'s decoder accepts and that uses '
+         'no Void-to-required tag is accepted by B\'s decoder in both modes as the same value with the new fields unset '
+         '(reads give None / the declared default). Wire-form corollaries (*_partial) take the sender\'s own round trip (C04/C05) '
+         'as a hypothesis. Tied to the code by pairs (A, B = A + 1-4 random compatible edits, also at sites reached only through '
+         'nesting) compiled, generated and imported by the real toolchain: the hypotheses (envWF, inherited descriptors, '
+         'compatEnv, tySub) are evaluated by the compiled model on every pair, and real decode_A(encode_B(v)), '
+         'decode_B(encode_A(v)) in both modes are compared with the model\'s decode / view / lift / mentionsUnknown / knownDoc / '
+         'tightDoc / nvrDoc, and judged by an independent Python reading of the property (A-view, lift, unknown content of '
+         'the message, read-back of every field including defaults).',
+    note='Trusted: Lean kernel; correspondence generators (pair generator + value generators); the independent oracle of the '
+         'harness. Not proved (observed by testing on every case): the converse half of strict_rejects_iff (a message with '
+         'unknown content IS refused by strict decoding), the step from a value to its wire form in the corollaries (round '
+         'trip of the sender, C04; encoder form of the sender\'s output), sub_trans. Alias edits are generated only at sites '
+         'where the generated bb.Attribute(nullable=, user_defined=) flags do not change (union tag types, route types, '
+         'below List / Map, non-nullable non-user field types). Values containing the documented ambiguity D7 (nullable '
+         'all-optional struct member with nothing set, C04 finding) and Void-to-required tags (not promised by the guide) are '
+         'counted, not judged.',
+    technique='Lean 4 proof (simulation between the two decoders, induction over the document) + differential correspondence '
+              'on spec pairs + direct oracle',
     design='5 C07')
 
 
 def run(ck):
     ck.build_and_audit()
     compat.suite_pairs(ck, ck.scale(24, 700), ck.scale(6, 10), ck.scale(10, 24))
+    ck.assumptions.extend([
+        'class references of the two specs correspond one to one (rho); every pair is a listed compatible change (compatEnv)',
+        'both environments: envWF (accepted specs), envWFX / envWFU (subclasses inherit their ancestors\' attribute descriptors)',
+        'wire-form corollaries: the sender reads its own message back (C04 round trip), caller without special permissions',
+    ])
     return ck.finish(rule=compat.RULE)
 
 
